@@ -50,6 +50,11 @@ def gen_dump(rng, static_map):
     # the thread map declares the same pid the thread's own records (sampler thread data, terminate-pid) carry, so
     # that dropping records of a non-requested class cannot change the tables a requested decoder reads
     entries = [(tid, 100 * (i + 1), b'proc%d' % i, b'') for i, tid in enumerate(tids)]
+    if rng.random() < 0.35:
+        # a process whose NAME is a number (names are taken verbatim from the map): the pid of another process of the dump,
+        # a thread id, its own pid + 1 - a filter value names a process by its id OR by its name, whatever either looks like
+        k = rng.randrange(len(entries))
+        entries[k] = (entries[k][0], entries[k][1], str(rng.choice((100 * ((k + 1) % len(entries) + 1), 11, 101, 0, 12, 10))).encode(), b'')
     data = wire.v2_file(entries, 8, gen.events_to_records(events))
     return {'data': data, 'events': events, 'entries': entries, 'static_map': static_map}
 
